@@ -18,8 +18,16 @@ A *case* is a JSON-serialisable dict:
 Everything observable is returned as plain data (reply codes per step, data bytes, EOF flags, backend
 content, ledgers).  No wall time: the virtual clock of simnet."""
 import asyncio
+import concurrent.futures
+import functools
+import gc
 import inspect
 import logging
+import os
+import shutil
+import tempfile
+import threading
+import time
 import pathlib
 import re
 
@@ -54,6 +62,9 @@ class Ctl:
         self.handles = []  # one entry id(file) per open handle (MemoryPathIO hands out the same buffer object twice)
         self.opened = 0
         self.released_all = False
+        self.twaiting = {}  # op -> threading.Events of executor threads blocked in a gate
+        self.blocked = 0
+        self.tlock = threading.Lock()
         self.active = False  # gates and call counts start after the file system has been set up
 
     async def gate(self, op):
@@ -76,10 +87,38 @@ class Ctl:
         for o in ops:
             for ev in self.waiting.get(o, []):
                 ev.set()
+        woken = 0
+        for o in [op] if op else list(self.twaiting):
+            for ev in list(self.twaiting.get(o, [])):
+                ev.set()
+                woken += 1
+        # the woken threads leave their gates before anybody counts blocked threads again
+        t0 = time.time()
+        while woken and time.time() - t0 < 2 and any(ev.is_set() for evs in self.twaiting.values() for ev in evs):
+            time.sleep(0.0002)
+
+    def gate_sync(self, op):
+        """gate INSIDE an executor job (called from the worker thread by GatePath / GateFile): the n-th blocking
+        call `op` of the run blocks its thread, so that what the event loop is waiting on - and what a cancellation
+        hits - is aioftp's own run_in_executor wrapper"""
+        if not self.active:
+            return
+        with self.tlock:
+            n = self.calls["t:" + op] = self.calls.get("t:" + op, 0) + 1
+            hold = not self.released_all and n in self.gates.get("t:" + op, ())
+            if hold:
+                ev = threading.Event()
+                self.twaiting.setdefault("t:" + op, []).append(ev)
+                self.blocked += 1
+        if hold:
+            ev.wait(60)
+            with self.tlock:
+                self.blocked -= 1
+                self.twaiting["t:" + op].remove(ev)
 
     def is_waiting(self, op=None):
         if op is None:
-            return any(self.waiting.values())
+            return any(self.waiting.values()) or any(self.twaiting.values())
         return bool(self.waiting.get(op))
 
 
@@ -152,6 +191,81 @@ class SpyIO(aioftp.MemoryPathIO):
                 return await inner.__anext__()
 
         return It()
+
+
+class CountingExecutor(concurrent.futures.ThreadPoolExecutor):
+    """executor handed to AsyncPathIO: knows how many jobs are really in flight (the event loop's own count drops
+    when the awaiting task is cancelled although the thread is still running)"""
+
+    def __init__(self):
+        super().__init__(max_workers=16)
+        self.inflight = 0
+        self.lock = threading.Lock()
+
+    def submit(self, fn, *a, **kw):
+        with self.lock:
+            self.inflight += 1
+
+        def run():
+            try:
+                return fn(*a, **kw)
+            finally:
+                with self.lock:
+                    self.inflight -= 1
+
+        return super().submit(run)
+
+
+class GateFile:
+    """file object handed out by GatePath.open: every blocking call passes a thread-level gate; open handles are counted"""
+
+    def __init__(self, f):
+        self._f = f
+        CTL.handles.append(id(self))
+
+    def read(self, *a):
+        CTL.gate_sync("read")
+        return self._f.read(*a)
+
+    def write(self, *a):
+        CTL.gate_sync("write")
+        return self._f.write(*a)
+
+    def seek(self, *a):
+        CTL.gate_sync("seek")
+        return self._f.seek(*a)
+
+    def close(self):
+        try:
+            CTL.gate_sync("close")
+        finally:
+            if id(self) in CTL.handles:
+                CTL.handles.remove(id(self))
+            self._f.close()
+
+    def __del__(self):
+        # a handle nobody refers to any more (an open that finished in its thread after the awaiting task had been
+        # cancelled) is closed by the interpreter's reference counting, as a real file object is
+        try:
+            if id(self) in CTL.handles:
+                CTL.handles.remove(id(self))
+            self._f.close()
+        except Exception:
+            pass
+
+
+class GatePath(pathlib.PosixPath):
+    """base_path of the user on the AsyncPathIO back-end: the blocking pathlib calls aioftp runs in its executor pass a
+    thread-level gate (derived paths keep this class)"""
+
+    def open(self, *a, **kw):
+        CTL.gate_sync("open")
+        return GateFile(super().open(*a, **kw))
+
+    def stat(self, *a, **kw):
+        if threading.current_thread() is not threading.main_thread():
+            CTL.gate_sync("stat")
+        return super().stat(*a, **kw)
 
 
 def codes(lines):
@@ -230,6 +344,8 @@ class Run:
     # ---- ledger
     def ledger(self):
         net, srv = self.net, self.srv
+        if self.tmpdir is not None:
+            gc.collect()
         # a transport whose close() has been called is released by its owner (connection_lost follows at once)
         st = [t for t in net.open_transports("server") if not t.closing]
         cur = asyncio.current_task()
@@ -260,6 +376,19 @@ class Run:
             "user": sum(m - v for m, v in zip(umax, uval)),
             "table": len(srv.connections),
         }
+
+    def slim(self):
+        """keep the observations (plain data), drop the event loop, server, transports and tasks of the finished run"""
+        import types
+
+        self.data = [types.SimpleNamespace(got=d.got, eof=d.eof, reset=d.reset, sent=d.sent, server_closed=d.server_closed,
+                                           server_t=types.SimpleNamespace(closed=d.server_t.closed, closing=d.server_t.closing))
+                     for d in self.data]
+        self.raw = types.SimpleNamespace(eof=self.raw.eof) if self.raw is not None else None
+        for name in ("net", "srv", "others", "harness_tasks", "close_task", "actor_data", "other_transports", "other_keys",
+                     "ctrl_st", "executor", "bind_ev"):
+            if hasattr(self, name):
+                setattr(self, name, None)
 
     def observe(self):
         """ledger + abstract (model-level) state of the session under test, as plain data"""
@@ -411,10 +540,39 @@ class Run:
     async def main(self):
         net, case = self.net, self.case
         net.loop.set_exception_handler(lambda l, c: None)
-        user = aioftp.User(base_path="/", home_path="/", maximum_connections=USER_MAX)
+        self.tmpdir = None
+        if case.get("backend") == "async":
+            # the shipped AsyncPathIO on a real scratch directory; gates sit inside the executor jobs
+            base = pathlib.Path(__file__).resolve().parent.parent / "build" / "tmp"
+            base.mkdir(parents=True, exist_ok=True)
+            self.tmpdir = tempfile.mkdtemp(dir=str(base), prefix="xfer-")
+            user = aioftp.User(base_path=self.tmpdir, home_path="/", maximum_connections=USER_MAX)
+            user.base_path = GatePath(self.tmpdir)  # User() normalises to a plain pathlib.Path
+            self.executor = CountingExecutor()
+            orig_settle = net.settle
+
+            async def settle(rounds=3):
+                """quiescence when the only outstanding executor jobs are threads blocked in a gate"""
+                quiet = 0
+                for _ in range(200000):
+                    await asyncio.sleep(0)
+                    if len(net.loop._ready) == 0 and self.executor.inflight <= CTL.blocked:
+                        quiet += 1
+                        if quiet >= rounds + 2:
+                            return
+                        time.sleep(0.0002)  # a finished job posts its result to the loop a moment after it is counted out
+                    else:
+                        quiet = 0
+                        if self.executor.inflight > CTL.blocked:
+                            time.sleep(0.0002)  # let the executor threads run
+                raise RuntimeError("xfer.settle: no quiescence")
+
+            net.settle = settle
+        else:
+            user = aioftp.User(base_path="/", home_path="/", maximum_connections=USER_MAX)
         self.srv = srv = aioftp.Server(
             [user],
-            path_io_factory=SpyIO,
+            path_io_factory=functools.partial(aioftp.AsyncPathIO, executor=self.executor) if self.tmpdir is not None else SpyIO,
             block_size=case.get("block", 4),
             maximum_connections=MAX_CONN,
             data_ports=list(POOL_PORTS) if case.get("pool") else None,
@@ -425,6 +583,14 @@ class Run:
         await srv.start("127.0.0.1", MAIN_PORT)
         pio = srv.path_io_factory(timeout=None, connection=None)
         for i, (name, size) in enumerate(sorted(case.get("files", {}).items())):
+            if self.tmpdir is not None:
+                q = pathlib.Path(self.tmpdir) / name.rstrip("/")
+                if name.endswith("/"):
+                    q.mkdir(parents=True, exist_ok=True)
+                else:
+                    q.parent.mkdir(parents=True, exist_ok=True)
+                    q.write_bytes(pattern(size, i))
+                continue
             if name.endswith("/"):
                 await pio.mkdir(pathlib.PurePosixPath("/" + name.rstrip("/")), parents=True)
                 continue
@@ -434,6 +600,11 @@ class Run:
                     await pio.mkdir(p.parent, parents=True)
             f = await aioftp.MemoryPathIO._open(pio, p, "wb")
             f.write(pattern(size, i))
+        if self.tmpdir is not None:
+            for root, dirs, fs in os.walk(self.tmpdir):
+                for n in dirs + fs:
+                    os.utime(os.path.join(root, n), (1000000000, 1000000000))
+            os.utime(self.tmpdir, (1000000000, 1000000000))
         CTL.handles.clear()
         self.payload = pattern(case.get("payload", 64), 5)
         self.other_transports = set()
@@ -594,6 +765,10 @@ class Run:
             self.final_waiting = sorted(op for op, evs in CTL.waiting.items() if evs)
             self.store = {}
             for name in case.get("inspect", []):
+                if self.tmpdir is not None:
+                    q = pathlib.Path(self.tmpdir) / name
+                    self.store[name] = q.read_bytes() if q.is_file() else None
+                    continue
                 p = pathlib.PurePosixPath("/" + name)
                 node = pio.get_node(p)
                 self.store[name] = None if node is None or node.type != "file" else node.content.getvalue()
@@ -615,10 +790,35 @@ class Run:
             for d in self.data + self.actor_data:
                 if d.task:
                     d.task.cancel()
-            try:
-                await asyncio.wait_for(srv.close(), 5)
-            except BaseException:
-                pass
+            # shut the server down without relying on virtual timers (they do not fire while an executor job is
+            # outstanding) and without ever blocking: a close() that does not come to an end is cancelled together
+            # with whatever the implementation left behind (that it hangs has been observed and judged above)
+            ct = asyncio.ensure_future(srv.close())
+            for _ in range(3000):
+                await asyncio.sleep(0)
+                if ct.done():
+                    break
+                if self.tmpdir is not None and self.executor.inflight:
+                    time.sleep(0.0002)
+            me = asyncio.current_task()
+            for _ in range(10):
+                left = [t for t in asyncio.all_tasks() if t is not me and not t.done()]
+                if not left:
+                    break
+                # an implementation that swallows cancellation would make simnet.run's epilogue wait for ever: cancel the
+                # tasks AND the futures they are waiting on until nothing is left
+                for t in left:
+                    t.cancel()
+                    fw = getattr(t, "_fut_waiter", None)
+                    if fw is not None and not fw.done():
+                        fw.cancel()
+                for _ in range(20):
+                    await asyncio.sleep(0)
+            if ct.done() and not ct.cancelled():
+                ct.exception()
+            if self.tmpdir is not None:
+                self.executor.shutdown(wait=True)
+                shutil.rmtree(self.tmpdir, ignore_errors=True)
 
 
 def run_case(case):
@@ -633,7 +833,17 @@ def run_case(case):
         await r.main()
 
     simnet.run(main, wall_timeout=60)
+    box["run"].slim()
+    # tasks and transports of finished runs form reference cycles; collected regularly, asyncio.all_tasks() (a scan of
+    # every task still alive in the process) and the collector itself stay cheap
+    global _RUNS
+    _RUNS += 1
+    if _RUNS % 20 == 0:
+        gc.collect()
     return box["run"]
+
+
+_RUNS = 0
 
 
 # ====================================================================== abstraction: real state -> model state
@@ -937,6 +1147,14 @@ def transfer_setup(verb, place, size=None, rest=None, listen="PASV"):
         steps += pre + [["cmd", c]]
     elif kind == "gate":
         gates = [[place[1], place[2]]]
+        steps += [["dconn"]] + pre + [["cmd", c]]
+        if verb in ("STOR", "APPE"):
+            steps += [["dsend", payload]]
+            if place[1] == "close":
+                steps += [["deof"]]
+    elif kind == "tgate":
+        # AsyncPathIO back-end (case["backend"] = "async"): the n-th blocking call `op` blocks INSIDE its executor job
+        gates = [["t:" + place[1], place[2]]]
         steps += [["dconn"]] + pre + [["cmd", c]]
         if verb in ("STOR", "APPE"):
             steps += [["dsend", payload]]
